@@ -207,6 +207,26 @@ func runCheck(repo, verif, prop, tier string, t0 time.Time) (int, error) {
 		}
 	}
 	sort.Strings(vacuous)
+	// a loop body / function end that became unreachable because an obligation of the same function failed (an
+	// invariant that does not hold on entry contradicts the state it is assumed in) is a consequence of that failure:
+	// the failed obligation is reported by name below. Unreachable code with every obligation discharged is a broken check.
+	failedIn := map[string]bool{}
+	for _, o := range obls {
+		if o.Status != "discharged" {
+			failedIn[o.Func] = true
+		}
+	}
+	var unexplained []string
+	for _, v := range vacuous {
+		fn := v
+		if i := strings.LastIndex(v, " "); i > 0 {
+			fn = v[:i]
+		}
+		if !failedIn[fn] {
+			unexplained = append(unexplained, v)
+		}
+	}
+	vacuous = unexplained
 	if len(vacuous) > 0 {
 		return 2, fmt.Errorf("vacuity: hypotheses are contradictory (no reachable path) for: %s", strings.Join(vacuous, "; "))
 	}
